@@ -28,6 +28,11 @@ from html.parser import HTMLParser
 from typing import Any
 
 
+def escape_attr(value: str) -> str:
+    """Escape the value of a double-quoted HTML attribute."""
+    return value.replace("&", "&amp;").replace('"', "&quot;")
+
+
 class Attribute(dict):
     """This class holds the tags's attributes."""
 
@@ -43,7 +48,7 @@ class Attribute(dict):
     def __str__(self) -> str:
         """Return a htmlized representation for attributes."""
         return " ".join(
-            key if value is None else f'{key}="{value}"'
+            key if value is None else f'{key}="{escape_attr(value)}"'
             for key, value in self.items()
         )
 
